@@ -204,7 +204,7 @@ def cxx_fragments(run):
         texts = [(x[1] if isinstance(x, tuple) else str(x)) for x in probs]
         lay = [p for p in texts if "layout" in p or "accessor" in p or "well_formed" in p]
         if lay:
-            confirm = (lay[0], {"shape": list(shp), "seed": run.seed + 31 * t, "cse": True, "share_reading": True, "rational": t % 3 == 1, "transcendental": t % 4 == 3})
+            confirm = (lay[0], {"shape": list(shp), "seed": run.seed + 31 * t, "cse": True, "share_reading": True, "rational": t % 3 == 1, "transcendental": t % 4 == 3, "nonsmooth": t % 5 == 2})
             break
     for rep, ob, model, definitive in bad:
         if confirm is None and not definitive:
